@@ -258,3 +258,18 @@ Definition mut_summary (r : ocls) (n : nat) (m : mutator) (x : operand) : nat * 
   match mutate_impl r (repeat (V r) n) m x with Err e => (exc_code e, []) | Ok d => (0, map (member r) d) end.
 Definition obj_summary (r : ocls) (x : operand) : nat * list bool :=
   match ctor_obj r x with Err e => (exc_code e, []) | Ok d => (0, map (member r) d) end.
+
+(* constructor given a LIST of objects whose first element is of the receiver's exact class (arghandler, list path,
+   `type(arg[0]) == type(self)`): every element must be of that class (assert) and hold exactly one value (fix 2eab8b7;
+   a multi-valued or empty element was stored as a nested list); then self.data = [x.A for x in arg] *)
+Definition ctor_objs (r : ocls) (l : list operand) : result (list melt) :=
+  match l with
+  | [] => Ok []
+  | h :: _ =>
+    if negb (exact r (ocl h)) then Err TypeError            (* not this path: outside the model (wf_objs) *)
+    else if negb (forallb (fun x => exact r (ocl x)) l) then Err AssertionError
+    else if negb (forallb (fun x => olen x =? 1) l) then Err ValueError
+    else Ok (map opd_A l)
+  end.
+Definition objs_summary (r : ocls) (l : list operand) : nat * list bool :=
+  match ctor_objs r l with Err e => (exc_code e, []) | Ok d => (0, map (member r) d) end.
